@@ -75,4 +75,19 @@ def runOp (args impl : List String) : Option (String × String) := do
     else "ok"
   pure ("-", spec)
 
+/-- `raterun.*` — Spec on what the harness observed of the real runner -/
+def raterunOp (_args impl : List String) : Option (String × String) :=
+  let bad := impl.filter fun (t : String) =>
+    t = "stopEarly=1" ∨ (t.startsWith "callsAfterStop=" ∧ t ≠ "callsAfterStop=0") ∨ t = "inFnAtStopReturn=1" ∨
+    (t.startsWith "callsWithHourlyFrequency=" ∧ t ≠ "callsWithHourlyFrequency=0") ∨ t = "withinOnePerTick=0" ∨
+    t = "calls=0" ∨ t = "someCalls=0" ∨ t = "stop-never-returned" ∨ t = "err"
+  some ("-", if impl.isEmpty then "FAIL no-impl-output"
+    else match bad with
+      | [] => "ok"
+      | b :: _ =>
+        if b = "stopEarly=1" then "FAIL Stop-returned-while-the-function-was-executing-or-being-dispatched"
+        else if b.startsWith "callsAfterStop" then "FAIL function-invoked-after-Stop-returned"
+        else if b.startsWith "callsWithHourly" then "FAIL invoked-under-a-schedule-none-of-whose-ticks-was-due"
+        else s!"FAIL {b}")
+
 end F1.Drive
